@@ -119,6 +119,48 @@ pub fn rand_shape(rng: &mut Rng, star: bool, graphs: bool) -> Vec<Q> {
     d
 }
 
+/// JSON-LD specific shapes: i18n-datatype literals, compound literals (canonical and near-canonical), rdf:JSON literals
+pub fn jsonld_shapes(rng: &mut Rng, d: &mut Vec<Q>) {
+    let gs: Vec<GraphName<ST>> = vec![None, None, Some(iri("http://ex/g")), Some(b(9))];
+    let push = |d: &mut Vec<Q>, q: Q| {
+        if !d.iter().any(|x| crate::iso::same_quad(x, &q)) {
+            d.push(q);
+        }
+    };
+    let g = rng.pick(&gs).clone();
+    match rng.below(3) {
+        0 => {
+            let dt = *rng.pick(&["he_rtl", "en-us_ltr", "_rtl", "_ltr", "fr_rtl"]);
+            let subj = if rng.chance(1, 2) { iri("http://ex/a") } else { b(0) };
+            push(d, ([subj, iri("http://ex/p"), lit_dt("shalom", &format!("https://www.w3.org/ns/i18n#{dt}"))], g));
+        }
+        1 => {
+            let c = 30;
+            let refs = *rng.pick(&[1usize, 1, 1, 1, 0, 2]);
+            for r in 0..refs {
+                push(d, ([if r == 0 { iri("http://ex/a") } else { b(0) }, if r == 0 { iri("http://ex/p") } else { iri("http://ex/q") }, b(c)], g.clone()));
+            }
+            let xs = format!("{XSD}string");
+            push(d, ([b(c), rdf("value"), lit_dt("shalom", &xs)], g.clone()));
+            push(d, ([b(c), rdf("direction"), lit_dt(*rng.pick(&["rtl", "ltr"]), &xs)], g.clone()));
+            if rng.chance(2, 3) {
+                push(d, ([b(c), rdf("language"), lit_dt(*rng.pick(&["he", "en-us"]), &xs)], g.clone()));
+            }
+            match rng.below(8) {
+                0 => push(d, ([b(c), iri("http://ex/p"), iri("http://ex/extra")], g.clone())),
+                1 => push(d, ([b(c), rdf("value"), lit_dt("second", &xs)], g.clone())),
+                2 => push(d, ([b(c), iri("http://ex/p"), iri("http://ex/elsewhere")], Some(iri("http://ex/g2")))),
+                _ => {}
+            }
+        }
+        _ => {
+            let js = *rng.pick(&["{\"a\":1}", "[1,\"x\"]", "\"str\"", "null", "true", "1", "{\"a\":{\"b\":[]}}", "{}", "[]"]);
+            let subj = if rng.chance(1, 2) { iri("http://ex/a") } else { b(0) };
+            push(d, ([subj, iri("http://ex/p"), lit_dt(js, &format!("{RDF}JSON"))], g));
+        }
+    }
+}
+
 pub fn prefix_map(k: usize) -> Vec<PrefixMapPair> {
     let mk = |p: &str, ns: &str| -> PrefixMapPair { (Prefix::new_unchecked(p.into()), Iri::new_unchecked(ns.into())) };
     match k % 6 {
@@ -187,7 +229,10 @@ pub fn input_of(seed: u64, idx: usize, family: &str) -> Input {
     };
     let graphs = fmt == "trig" || fmt == "jsonld";
     let d = rand_shape(&mut rng, fmt != "jsonld" && fmt != "xml" && idx % 3 == 0, graphs);
-    let d = if fmt == "turtle" || fmt == "xml" { d.into_iter().map(|q| (q.0, None)).collect() } else { d };
+    let mut d: Vec<Q> = if fmt == "turtle" || fmt == "xml" { d.into_iter().map(|q| (q.0, None)).collect() } else { d };
+    if fmt == "jsonld" && rng.chance(1, 2) {
+        jsonld_shapes(&mut rng, &mut d);
+    }
     Input { fmt, pretty: idx % 4 != 3, pm: rng.below(6), indent: rng.below(3), d }
 }
 pub fn describe(i: &Input) -> Value {
